@@ -82,12 +82,16 @@ func Load(patterns ...string) (*World, error) {
 	for _, p := range prog.AllPackages() {
 		w.SSA[p.Pkg.Path()] = p
 	}
+	curWorld = w
 	curAliases = nil
 	if os.Getenv("VCHECK_NO_ALIAS") == "" {
 		curAliases = buildAliases(w)
 	}
 	return w, nil
 }
+
+// curWorld: the program under analysis (for helpers that have no World parameter).
+var curWorld *World
 
 // Pkg returns the SSA package of a repo-relative package ("accountant") or an absolute import path.
 func (w *World) Pkg(rel string) *ssa.Package {
